@@ -12,7 +12,7 @@ def run(tier):
     q = ctx.quick
     builds = ["prod-avx2", "asan-avx2", "prod-sse"] if q else \
         ["prod-avx2", "asan-avx2", "prod-sse", "asan-sse", "prod-dyn", "asan-dyn"]
-    pads = [0, 1, 31, 33, 63, 64] if q else sorted(set(range(0, 9)) | {15, 16, 17, 31, 32, 33, 34, 47, 48, 49, 63, 64, 65, 66, 70})
+    pads = [0, 1, 31, 33, 63, 64] if q else [0, 1, 2, 7, 8, 15, 16, 31, 32, 33, 63, 64]
     F = T.fmtset
     plans = [dict(MaxNodes=3 if q else 4, Pool=3, Layouts=F([0, 2]), Wide="FALSE", D=2 if q else 3),
              dict(MaxNodes=4 if q else 5, Pool=0, Layouts=F([0, 3] if q else [0, 1, 3, 4]), Wide="FALSE", D=2),
@@ -24,7 +24,7 @@ def run(tier):
     for i, pl in enumerate(plans):
         # (the scanner model is evaluated on every case except the wide containers with 65-blank runs, where the recursive
         # TLA+ definitions take minutes)
-        recs = O.gen_od(ctx, pl, f"Gen_OnDemand_{i}", equiv=(pl["Wide"] == "FALSE"))
+        recs = O.gen_od(ctx, pl, f"Gen_OnDemand_{i}", equiv=(pl["Wide"] == "FALSE" and (q or pl["MaxNodes"] <= 3)))
         rows = O.rows_c10(recs)
         fails, _ = O.replay_od(ctx, "c10", rows, builds, pads, name=f"od{i}")
         O.record(ctx, rows, fails, OWN, f"ondemand{i}")
@@ -35,8 +35,8 @@ def run(tier):
         for r in rows[:1] + rows[len(rows) // 2:len(rows) // 2 + 1]:
             ctx.samples.append(O.describe(r))
     # beyond the node bound: trees grown by random insertions (TLC simulation), hazards for the skipper in the leaves
-    for laye in ((0, 2) if q else (0, 1, 2, 3)):
-        recs = O.gen_rand_od(ctx, 3 if q else 25, 9 if q else 12, laye)
+    for laye in ((0, 2) if q else (0, 2, 3)):
+        recs = O.gen_rand_od(ctx, 3 if q else 8, 9 if q else 10, laye)
         rows = O.rows_c10(recs)
         fails, _ = O.replay_od(ctx, "c10", rows, builds, pads[:4] if q else pads[::3], name=f"odrand{laye}")
         O.record(ctx, rows, fails, OWN, f"ondemand-random{laye}")
@@ -50,7 +50,7 @@ def run(tier):
     recs = ctx.tlc_emit("Gen_OnDemandStr", cfg=cfg, timeout=1500, xmx="8g")
     ctx.log(f"Gen_OnDemandStr: {len(recs)} (text, path) cases with specials at block offsets, {sum(1 for r in recs if r['found'])} resolving")
     rows = O.rows_c10(recs)
-    spads = [0, 1, 2, 3, 5, 8, 13, 21, 27, 31] if q else list(range(0, 34, 1))
+    spads = [0, 1, 2, 3, 5, 8, 13, 21, 27, 31] if q else list(range(0, 34, 2))
     fails, _ = O.replay_od(ctx, "c10", rows, builds, spads, name="odstr")
     O.record(ctx, rows, fails, OWN, "ondemand-strings")
     total += len(rows)
